@@ -11,6 +11,9 @@
 //!                               -> ok <hex formatted> <comments in store> | err <n> <hex first msg> | panic <hex>
 //!   fmtdoc <width> <hexsrc>     real Document of the module (hook H4b) + real output -> ok <hex> <doc>
 //!   imports <hexsrc>           parsed import lines + real Document -> ok only|more <imports> | <doc>
+//!   attach <hextext> <extra>    comment skeletons: plain parse | parse_expression_with_additional_preceding_comments
+//!   paren <hextext> <start> <stop>  skeleton before | after keep_parenthesis_comments
+//!   exprdoc <width> <hextext>  arithmetic-fragment tree + real Document of the expression + real layout
 //!   tok <hexsrc>                real token producer (hook H6) -> kind:l0:c0:l1:c1:hex,...
 use samlang_errors::ErrorSet;
 use samlang_heap::{Heap, ModuleReference};
@@ -127,6 +130,82 @@ fn imports(src: &str) -> String {
   format!("ok {shape} {} | {doc}", if parts.is_empty() { "-".to_string() } else { parts.join("/") })
 }
 
+fn csv(s: &str) -> Vec<String> {
+  if s == "-" { Vec::new() } else { s.split(',').map(|x| x.to_string()).collect() }
+}
+
+/// Arithmetic fragment: `A cs hexname` | `U cs hexop e` | `B cs hexop ocs l r`; `None` = outside.
+fn dump_aexpr(
+  heap: &Heap,
+  store: &samlang_ast::source::CommentStore,
+  e: &samlang_ast::source::expr::E<()>,
+  out: &mut Vec<String>,
+) -> bool {
+  use samlang_ast::source::{CommentKind, Literal, expr::E};
+  let cs = |r| {
+    let v: Vec<String> = store
+      .get(r)
+      .iter()
+      .map(|c| {
+        let k = match c.kind {
+          CommentKind::LINE => "line",
+          CommentKind::BLOCK => "block",
+          CommentKind::DOC => "doc",
+        };
+        format!("{k}={}", hex(c.text.as_str(heap).as_bytes()))
+      })
+      .collect();
+    if v.is_empty() { "-".to_string() } else { v.join(",") }
+  };
+  match e {
+    E::LocalId(c, id) => {
+      out.push("A".into());
+      out.push(cs(c.associated_comments));
+      out.push(hex(id.name.as_str(heap).as_bytes()));
+      true
+    }
+    E::Literal(c, Literal::Int(i)) => {
+      out.push("A".into());
+      out.push(cs(c.associated_comments));
+      out.push(hex(i.to_string().as_bytes()));
+      true
+    }
+    E::Unary(u) => {
+      out.push("U".into());
+      out.push(cs(u.common.associated_comments));
+      out.push(hex(u.operator.kind_str().as_bytes()));
+      dump_aexpr(heap, store, &u.argument, out)
+    }
+    E::Binary(b) => {
+      out.push("B".into());
+      out.push(cs(b.common.associated_comments));
+      out.push(hex(b.operator.kind_str().as_bytes()));
+      out.push(cs(b.operator_preceding_comments));
+      dump_aexpr(heap, store, &b.e1, out) && dump_aexpr(heap, store, &b.e2, out)
+    }
+    _ => false,
+  }
+}
+
+/// Real parse of an expression, its tree (arithmetic fragment), the real Document (hook H4c) and
+/// the real layout: `ok <hexout> <tree> | <doc>`.
+fn exprdoc(width: usize, src: &str) -> String {
+  let mut heap = Heap::new();
+  let mut error_set = ErrorSet::new();
+  let (store, e) =
+    samlang_parser::parse_source_expression_from_text(src, ModuleReference::DUMMY, &mut heap, &mut error_set);
+  if error_set.has_errors() {
+    return format!("err {}", error_set.errors().len());
+  }
+  let mut tree = Vec::new();
+  if !dump_aexpr(&heap, &store, &e, &mut tree) {
+    return "unsupported".to_string();
+  }
+  let doc = samlang_printer::verif_hooks::expression_doc(&heap, &store, &e);
+  let out = samlang_printer::pretty_print_expression(&heap, width, &store, &e);
+  format!("ok {} {} | {doc}", hex(out.as_bytes()), tree.join(" "))
+}
+
 fn main() {
   std::panic::set_hook(Box::new(|_| {}));
   for_each_line(|line| {
@@ -190,6 +269,25 @@ fn main() {
           fmtdoc(w.parse().unwrap(), &unhex_str(src))
         }
         "imports" => imports(&unhex_str(rest)),
+        "attach" => {
+          let t: Vec<&str> = rest.split(' ').collect();
+          let extra = csv(t.get(1).unwrap_or(&"-"));
+          let (a, b) = samlang_parser::verif_hooks_queue::attach_trace(&unhex_str(t[0]), &extra);
+          format!("{a} | {b}")
+        }
+        "paren" => {
+          let t: Vec<&str> = rest.split(' ').collect();
+          let (a, b) = samlang_parser::verif_hooks_queue::paren_trace(
+            &unhex_str(t[0]),
+            &csv(t.get(1).unwrap_or(&"-")),
+            &csv(t.get(2).unwrap_or(&"-")),
+          );
+          format!("{a} | {b}")
+        }
+        "exprdoc" => {
+          let (w, src) = rest.split_once(' ').unwrap();
+          exprdoc(w.parse().unwrap(), &unhex_str(src))
+        }
         "tok" => {
           let src = unhex_str(rest);
           let mut heap = Heap::new();
